@@ -25,11 +25,22 @@ D_STRUCT = {"A", "nrows", "ncols", "nstruct", "structmap", "rowmap"}
 
 INVALIDATORS = {"free_cache"}
 # documented guarded form (qsopt.c: "If we only delete basic rows then cached soln is valid")
-WAIVER = {"QSdelete_rows": ("cache_ok", "only basic rows were deleted: ILLlib_delrows reports through cache_ok that the cached "
+# the waiver variable is not named: it is the local whose address QSdelete_rows passes as the last argument of ILLlib_delrows
+WAIVER = {"QSdelete_rows": (("ILLlib_delrows", 6), "only basic rows were deleted: ILLlib_delrows reports through cache_ok that the cached "
                                        "solution (repacked) is still valid; documented in QSdelete_rows")}
 EXEMPT = {"QSfree_prob": "destructor: the problem ceases to exist",
           "QSopt_strongbranch": "edits bounds temporarily inside the strong-branching loop and restores them; resets qstatus itself "
                                 "(checked by R-INVAL-SB below: stores qstatus = QS_LP_UNSOLVED)"}
+
+
+def _waiver_var(f, spec):
+    """the local whose address is passed at position spec[1] of the call of spec[0]"""
+    for b, i, c in f.calls():
+        if base(c[1] or "") == spec[0] and len(c[3]) > spec[1]:
+            a = strip(c[3][spec[1]])
+            if isinstance(a, list) and a and a[0] == "u" and a[1] == "&" and is_var(a[2], kind="l"):
+                return strip(a[2])[2]
+    return None
 
 
 def lp_field(fp, prefix="mpq_"):
@@ -171,7 +182,7 @@ def run_inval(prog, E=None, prefix="mpq_", rule="R-INVAL"):
             if unknown_api_call and _round < 5:
                 continue
             wv = WAIVER.get(base(f.name))
-            an = MustFollow(prog, f, m, inv, wv[0] if wv else None).run()
+            an = MustFollow(prog, f, m, inv, _waiver_var(f, wv[0]) if wv else None).run()
             results[key] = (an, inv)
             del pending[key]
             progress = True
